@@ -1287,6 +1287,10 @@ class Trimesh(Geometry3D):
         if util.is_shape(self.vertices, (-1, 3)):
             # (len(self.vertices), ) bool, mask for vertices
             vertex_mask = np.isfinite(self.vertices).all(axis=1)
+            if not vertex_mask.all() and util.is_shape(self.faces, (-1, 3)):
+                # a face using a removed vertex can't be kept: re-indexing
+                # would silently move its corner onto another vertex
+                self.update_faces(vertex_mask[self.faces].all(axis=1))
             self.update_vertices(vertex_mask)
 
     def unique_faces(self) -> NDArray[np.bool_]:
